@@ -45,6 +45,22 @@ RoundTrip(fmt, syn, expand, c) ==
     [] fmt = "shacl" -> ReadShacl(ShaclDecls(c, syn), ~syn)
     [] fmt = "tsv" -> ReadTsv(TsvRows(c))
 
+\* files as values: [fmt, syn, expand, delim, doc] (spec/System.tla keeps them in the state)
+DocOf(fmt, syn, expand, c) ==
+  CASE fmt = "epm" -> EPMDoc(c)
+    [] fmt = "jsonld" -> JsonLDDoc(c, syn, expand)
+    [] fmt = "shacl" -> ShaclDecls(c, syn)
+    [] fmt = "tsv" -> TsvRows(c)
+
+\* the matching reader (load_extended_prefix_map(delimiter=...), load_jsonld_context(strict = not synonyms),
+\* load_shacl(strict = not synonyms), load_prefix_map of the two TSV columns)
+ReadFile(f) ==
+  CASE f.fmt = "epm" -> ReadEPM(f.doc, f.delim)
+    [] f.fmt = "jsonld" -> ReadJsonLD(f.doc, DefaultDelim, ~f.syn)
+    [] f.fmt = "shacl" -> ReadShacl(f.doc, ~f.syn)
+    [] f.fmt = "tsv" -> ReadTsv(f.doc)
+
+
 ---------------------------------------------------------------------------
 \* C14, declaratively
 PatOf(c) == {<<r.p, r.pat[1]>> : r \in {x \in RecSet(c) : HasPat(x)}}
@@ -57,4 +73,9 @@ P_C14(fmt, syn, c, r) ==
        [] fmt = "shacl" -> /\ IF syn THEN d.pm = c.pm ELSE Bimap(d) = Bimap(c)
                            /\ \A kv \in PatOf(c) : kv \in d.pat
                            /\ \A kv \in d.pat : kv[1] \in {x.p : x \in RecSet(c)} => kv \in PatOf(c)
+\* the converters C14 quantifies over, per format
+InC14(fmt, syn, c) ==
+  /\ OneOwner(c)
+  /\ fmt = "jsonld" => \A p \in (IF syn THEN KnownP(c) ELSE {r.p : r \in RecSet(c)}) : p # <<>> /\ p[1] # 64
+  /\ fmt = "shacl" => Len(c.recs) > 0
 =============================================================================
